@@ -149,7 +149,9 @@ func (l *Lexer) bracesToken(tok token.TokenType, literal string) token.Token {
 
 func (l *Lexer) illegalToken() token.Token {
 	l.tokenBegins()
-	return l.newToken(token.ILLEGAL, string(l.char))
+	// the text of the token is the byte itself, string(l.char) would
+	// take the byte for a code point and encode it anew
+	return l.newToken(token.ILLEGAL, string([]byte{l.char}))
 }
 
 func (l *Lexer) directiveToken() token.Token {
